@@ -82,6 +82,10 @@ def who_may_access(chk, F, tag="access"):
             continue
         if b["path"] in ALLOWED_OBSERVERS:
             continue
+        if facts.binding_layer(b["path"]) and (b.get("name") or "").startswith("get_"):
+            # Python getters return Option<...>: read-only observers that expose presence by design
+            chk.count("presence observers in the binding layer (getters)", len(sites))
+            continue
         for s in sites:
             chk.ob("%s|%s" % (tag, b["path"]), False,
                    "only the container module may inspect the presence of a derivative part", F.loc(s["l"]),
